@@ -258,6 +258,19 @@ class Beh:
     def space(self, o):
         self.add({"k": "space", "o": o})
 
+    # bit structures with positions beyond 2^32: `base` zeros followed by the tail s
+    def newbig(self, kind, base, s):
+        o = self.fresh()
+        self.add({"k": "newbig", "o": o, "kind": kind, "base": sym(base),
+                  "segs": [{"pat": [s.alpha[i - 1] for i in p], "rep": r} for p, r in s.segs]})
+        return o
+
+    def qbig(self, o, m, rel, form="rel"):
+        self.add({"k": "qbig", "o": o, "m": m, "rel": list(rel), "form": form})
+
+    def metabig(self, o):
+        self.add({"k": "metabig", "o": o})
+
     def spstd(self, shape, lens):
         self.add({"k": "spstd", "shape": shape, "lens": list(lens)})
 
